@@ -2,7 +2,7 @@
 # usage: confirm_seeded.sh <id> <a|b> ...  : confirms a seeded change in a scratch worktree of /repo
 # (1) builds, (2) whole existing suite passes with it, (3) demo fails with it, (4) demo passes without it.
 export GOFLAGS=-mod=mod GOPROXY=off
-IN=/verif/seeded/_incoming
+IN=${IN:-/verif/seeded/_incoming}
 for spec in "$@"; do
   id=${spec%/*}; v=${spec#*/}
   d=$IN/$id/$v
